@@ -60,6 +60,16 @@ CHECKS = {
    "Agreement of every exported procedure of the blake3, sha256, keccak256 and native hashing modules with the reference implementations on the stated input sets, which exercise every input bit position in both polarities; equality on all 2^256 / 2^512 inputs cannot be decided by enumeration and is not claimed.",
    "Weakest claim of the set by nature of the property: exhaustive only over the stated structured families.",
    "DESIGN.md §5 C17"),
+ "C11": ("model_checking",
+   "exhaustive enumeration of compilation histories on one Assembler instance (cross-checked with a stateright BFS over the same machine) + bounded-exhaustive grid of invalid programs",
+   "Part S: 8 assembler configurations (library order, kernel, debug mode) x all histories of length <= 2 (quick) / <= 3 (thorough, 163 520 states) over a pool of 27 sources (exec/call/procref through direct and re-exported paths, equal MAST roots with different callsets, call by MAST root, dyn after procref, syscalls, invalid sources): every source compiles to the same program (hash, kernel, code-block-table roots, execution outcome) as on a fresh assembler, never panics, and every statically referenced call / procref target is in the code block table; library order and re-export paths do not change the program. The thorough tier re-explores the same machine with stateright's BFS and requires equal state counts and verdicts. Part E: 632 invalid / boundary sources (parameter ranges, local indices, kernel rules, program shape, constants, decorators) x debug on/off must be Err (or Ok where valid), never a panic.",
+   "The assembler's cache is private, so states are histories (no canonicalisation); a source that only assembles because the cache knows a root is counted cache_dependent, not a violation.",
+   "DESIGN.md §5 C11"),
+ "C14": ("model_checking",
+   "exhaustive enumeration of all next/back stepping histories on the real VmStateIterator against a trace-derived reference, plus determinism variants over the program family",
+   "All {next, back} histories up to length 10-13 on six programs (deep inputs, crossing the 16-element boundary, call with memory in two contexts, locals/fmp, loop) and on a failing program: every returned VmState equals row t of the trace (top 16, depth, overflow part, fmp, ctx, op, memory), no panic, and the iterator can always be drained to the last clock; determinism of outputs and main trace under repeated runs, tracing flag, debug-mode assembly and decorators inserted at every boundary; clk pushes its row index.",
+   "States are histories (private cursor); trace-side overflow/memory views are reconstructed by the harness from the main trace columns.",
+   "DESIGN.md §5 C14"),
 }
 NA_REASON = "check not built yet in this round (planned, see DESIGN.md §11); no claim is made"
 m = {
